@@ -1,7 +1,7 @@
 (* C17 property theorems. Nothing but statements closed by `exact lemma` and Print Assumptions. *)
 From Coq Require Import NArith List Bool.
 From OG Require Import C17.Model C17.Proofs C17.Refine C17.Corr C17.Scope C17.Gen_Consts C17.Crash.
-From OG Require Import C17.Inv C17.Search C17.Read C17.Step C17.SaveStep.
+From OG Require Import C17.Inv C17.Search C17.Read C17.Step C17.SaveStep C17.ZeroSlots C17.Fault.
 Import ListNotations.
 Open Scope N_scope.
 
@@ -148,12 +148,27 @@ Proof. exact crash_meta_first_breaks. Qed.
    allEntries = limit_size of the slice (Read.v). *)
 Theorem C17_refines : forall (P : params) (ops : list sop),
   wf_params P = true ->
+  let out := outputs_disk VZeroSlots P ops (empty_disk P) in
+  valid_spec P ops (map r_first out) empty_alog ->
+  out = outputs_spec ops (map r_first out) empty_alog
+  /\ abs (run_disk VZeroSlots P ops (empty_disk P)) = run_spec ops (map r_first out) empty_alog.
+Proof.
+  intros P ops HP out Hv.
+  destruct (refines_from_z P HP ops (empty_disk P) 1 [] (empty_disk_invz P) Hv) as (O & R & _). split; assumption.
+Qed.
+Print Assumptions C17_refines.
+
+(* The same statement for the fallback of zeroSlots (a file wrapper without ZeroSlots: WriteSlice with a buffer 4
+   bytes shorter than the range, the zero-fill of /repo 6bd4b1a), which leaves the 4-byte prefix in the first cleared
+   slot. *)
+Theorem C17_refines_prefix_fill : forall (P : params) (ops : list sop),
+  wf_params P = true ->
   let out := outputs_disk VRepaired P ops (empty_disk P) in
   valid_spec P ops (map r_first out) empty_alog ->
   out = outputs_spec ops (map r_first out) empty_alog
   /\ abs (run_disk VRepaired P ops (empty_disk P)) = run_spec ops (map r_first out) empty_alog.
 Proof. intros P ops HP. exact (refines_from P HP ops (empty_disk P) 1 [] (empty_disk_inv P)). Qed.
-Print Assumptions C17_refines.
+Print Assumptions C17_refines_prefix_fill.
 
 (* the hypotheses are satisfiable: a history with rotation (4 slots per file), a conflict into the rotated file, a
    snapshot, a prefix deletion, reopen, size-limited reads, full scan *)
@@ -163,7 +178,7 @@ Definition demo_ops : list sop :=
     Entries 1 3 1000; Term 2; CreateSnap 3 None 4; DeleteBefore 3; Reopen; Entries 2 4 20; Sum; GetMeta ].
 Example C17_refines_hyp_satisfiable :
   wf_params demo_params = true /\
-  let out := outputs_disk VRepaired demo_params demo_ops (empty_disk demo_params) in
+  let out := outputs_disk VZeroSlots demo_params demo_ops (empty_disk demo_params) in
   valid_spec demo_params demo_ops (map r_first out) empty_alog.
 Proof.
   split; [reflexivity|]. vm_compute.
@@ -177,13 +192,101 @@ Proof.
          end.
 Qed.
 
-(* one step, from any state satisfying the invariant: invariant kept, same abstract state, same answer *)
+(* one step, from any state satisfying the invariant: invariant kept, same abstract state, same answer. For the
+   variant of the tree the invariant also says that no rotated file holds a dead (cleared but not rewritten) slot. *)
 Theorem C17_step_refines : forall P, wf_params P = true -> forall o d i0 Ac,
+  dinvz P i0 d Ac -> valid_op P o (abs d) -> step_ok_z P o d.
+Proof. exact step_all_z. Qed.
+Print Assumptions C17_step_refines.
+Theorem C17_step_refines_prefix_fill : forall P, wf_params P = true -> forall o d i0 Ac,
   dinv P i0 d Ac -> valid_op P o (abs d) -> step_ok P o d.
 Proof. exact step_all. Qed.
-Print Assumptions C17_step_refines.
+
+(* ZeroSlots(lo, hi) with hi at or beyond the written part of a file keeps exactly the live rows below lo - slot
+   records AND payload cells - and leaves no dead slot behind (nothing outside the slot records [lo, hi) is touched:
+   no prefix in slot lo, no overrun into the data area). *)
+Theorem C17_zero_slots_exact : forall P hi lo f A D,
+  fview P f A D -> (lo < length A)%nat -> f_n f <= hi ->
+  fview P (zero_slots hi (N.of_nat lo) f) (firstn lo A) [].
+Proof. exact zero_slots_view. Qed.
+Print Assumptions C17_zero_slots_exact.
+
+(* ================================================================================================================ *)
+(* A SAVE THAT FAILS (Model.save_fail: the write that clears the discarded slots, the payload or slot write of entry
+   number j or the rotation before it, the hard state write, the snapshot write). For every state of the invariant,
+   every batch that respects Raft's contract and every fault:
+   - a fault that does not apply is no fault (the result is the ordinary Save);
+   - otherwise the error is reported and the abstract log is, depending on the fault (Fault.failed_log):
+       clearing write  : a PREFIX OF THE OLD LOG THAT STILL HOLDS THE CONFLICTING INDEX - the old log unchanged when
+                         the conflict lies in the current file, the old log cut at the end of the file that holds the
+                         conflicting index when it lies in a rotated file (the later files are already deleted) -
+                         never the truncation prefix, never anything of the batch; meta untouched;
+       entry j         : the specification's truncation prefix (everything below the first new index) followed by the
+                         first j entries of the batch; meta untouched;
+       hard state      : the specification's Append result; meta untouched;
+       snapshot        : the specification's Append result; the new hard state is stored, the snapshot is the old one. *)
+Theorem C17_failed_save_log : forall P, wf_params P = true -> forall d i0 Ac e0 r h s ft,
+  dinvz P i0 d Ac -> valid_batch P e0 r (log_of d) ->
+  let es := e0 :: r in
+  let res := save_fail VZeroSlots P es h s ft d in
+  (fst res = false -> snd res = fst (step_disk VZeroSlots P (Save es h s) d))
+  /\ (fst res = true -> failed_log ft e0 r h (abs d) (abs (snd res))).
+Proof. exact failed_save_log. Qed.
+Print Assumptions C17_failed_save_log.
+
+(* ... and the caller's retry (RaftNode.SaveToStorage repeats the Save until it succeeds): the failure state satisfies
+   the invariant again (so every theorem above applies to reads issued before the retry), the same batch is a valid
+   Save in it, and saving it again yields exactly the answer and the abstract state of the specification's Save on
+   the state before the failure. Proved for [settled] failure states: the current file holds an entry or there is no
+   other file. Not settled (outside the invariant, which ties an empty current file to an empty log): the failed write
+   was the first one into a file just created by a rotation, or nothing of the batch is visible yet and the first new
+   index is the first index of a file that is not the oldest; those states are covered by the finite exploration
+   below and by the fault cases of the correspondence harness. *)
+Theorem C17_failed_save_retry : forall P, wf_params P = true -> forall d i0 Ac e0 r h s ft,
+  dinvz P i0 d Ac -> valid_batch P e0 r (log_of d) ->
+  let es := e0 :: r in
+  let res := save_fail VZeroSlots P es h s ft d in
+  fst res = true -> settled (snd res) ->
+  (exists i1 Ac1, dinvz P i1 (snd res) Ac1)
+  /\ valid_op P (Save es h s) (abs (snd res))
+  /\ step_spec (Save es h s) 0 (abs (snd res)) = step_spec (Save es h s) 0 (abs d)
+  /\ let '(d2, x2) := step_disk VZeroSlots P (Save es h s) (snd res) in
+     (abs d2, x2) = step_spec (Save es h s) 0 (abs d).
+Proof. exact failed_save_retry. Qed.
+Print Assumptions C17_failed_save_retry.
+
+(* hypotheses satisfiable, every fault kind reported at least once: three files of 4 slots, a conflicting Save into
+   the first one with hard state and snapshot *)
+Definition fault_ops : list sop := [ Save (seg 1 10 1 0 5 7) (Some (mkhs 1 1 9)) None ].
+Definition fault_d := run_disk VZeroSlots demo_params fault_ops (empty_disk demo_params).
+Definition fault_es := seg 3 2 2 0 6 50.
+Example C17_failed_save_hyp_satisfiable :
+  length (d_files fault_d) = 2%nat
+  /\ map (fun ft => fst (save_fail VZeroSlots demo_params fault_es (Some (mkhs 2 2 4)) (Some (mksnap 2 1 (Some [1]) 9)) ft fault_d))
+         [FClear; FEntry 0 false; FEntry 1 true; FHs; FSnap; FEntry 2 false]
+     = [true; true; true; true; true; false]
+  /\ map (fun ft => map e_index (a_ents (abs (snd (save_fail VZeroSlots demo_params fault_es (Some (mkhs 2 2 4)) None ft fault_d)))))
+         [FClear; FEntry 0 false; FEntry 1 true; FHs]
+     = [[1; 2; 3; 4]; [1; 2]; [1; 2; 3]; [1; 2; 3; 4]].
+Proof. vm_compute. repeat split. Qed.
+
+(* finite exploration with faults (vm_compute, not a general theorem): in every state reached by up to 2 operations of
+   Scope.ops_for (3 slots and 42 data bytes per file), every Save of the alphabet with every fault: a reported failure
+   leaves a state that reads like Fault.failed_log says (first/last index, full scan, Term and Entries at the
+   boundaries - settled or not) and the retry gives the specification's answer and state; an unreported one must be
+   indistinguishable from a Save, also after reopen. The WriteSlice variants drop the error of the clearing write and
+   fail this check. Depth 3 (74 060 reported faults) runs in the thorough tier. *)
+Example C17_faults_small_scope : explore_f VZeroSlots tiny_params 2 (empty_disk tiny_params) empty_alog = true.
+Proof. vm_compute. reflexivity. Qed.
+Example C17_faults_small_scope_size : count_faults VZeroSlots tiny_params 2 (empty_disk tiny_params) empty_alog = 4445.
+Proof. vm_compute. reflexivity. Qed.
+Example C17_faults_small_scope_rejects_prefix_fill : explore_f VRepaired tiny_params 2 (empty_disk tiny_params) empty_alog = false.
+Proof. vm_compute. reflexivity. Qed.
+Example C17_refines_small_scope_zeroslots : explore VZeroSlots tiny_params 4 (empty_disk tiny_params) empty_alog = true.
+Proof. vm_compute. reflexivity. Qed.
 
 (* pieces worth naming *)
+
 Theorem C17_slot_search_old : forall P d i0 Ac, dinv P i0 d Ac -> forall pre f post A D i,
   d_files d = pre ++ f :: post -> fview P f A D ->
   i0 + flen pre <= i -> i < i0 + flen pre + N.of_nat (length A) ->
